@@ -73,4 +73,8 @@ def run(ctx, rep):
                               "text (subscript, format template, None receiver, ...): a file lacking a section is rejected with the documented "
                               "ValueError and an unknown section is reported, never an internal error raised while building the message", floor=5)
     from .partial import check_partial_scope
-    check_partial_scope(ctx, r9, [f"{CHART}.from_file", f"{CHART}.from_filepath"], only_modules={"chartparse.chart"})
+    # (the two entry points and the private helpers they are cut into; other public methods and the special methods of Chart --
+    # `chart[instrument]` raising KeyError for an absent instrument is its documented behaviour -- are not part of the parse)
+    check_partial_scope(ctx, r9, [f"{CHART}.from_file", f"{CHART}.from_filepath"], only_modules={"chartparse.chart"},
+                        only_funcs=lambda g: g.name in ("from_file", "from_filepath") or (g.name.startswith("_") and not g.name.startswith("__"))
+                        or g.parent is not None)
